@@ -30,6 +30,7 @@ type c16Env struct {
 
 // c16Extra: rules added for missed seeded changes (detection round 8).
 func c16Extra(r *core.Run, e *c16Env) {
+	defer c16Round10(r, e)
 	defer c16Round9(r, e)
 	p := e.p
 
